@@ -18,7 +18,9 @@ PROP = 'C17'
 HASH_SENSITIVE = False
 NAN = float('nan')
 TICKS = [0, 0.000001, 1, 3600, 86400, 30 * 86400]
-ORIGINS = ['2021-03-03T10:00:00', '2020-02-29T23:59:59.999999', '2022-01-01T00:00:00', '2021-12-31T12:00:00', '2023-06-15T09:30:00']
+ORIGINS = ['2021-03-03T10:00:00', '2020-02-29T23:59:59.999999', '2022-01-01T00:00:00', '2021-12-31T12:00:00', '2023-06-15T09:30:00',
+           '2024-02-28T00:00:00.000001', '2024-02-29T00:00:00', '2019-12-31T23:59:59', '2025-01-31T23:59:59.999999', '2022-03-27T01:30:00',
+           '2022-10-30T01:30:00', '2023-04-30T00:00:00', '2021-07-04T12:00:00.500000', '2020-01-01T00:00:00.000001', '2026-06-30T18:45:10']
 
 
 def _iso(t):
